@@ -63,3 +63,23 @@ def main(argv):
                              "obligations": 1, "discharged": 0, "checker_cmd": "go build", "trusted_base": []}, [], 0.0, 1)
         print("VIOLATION property=%s replay=%s no-failing-input-found" % (prop, p))
         return 1
+    except Exception as e:
+        # a stage of the check could not run against this tree (the read-back of the emitted grammar literal met a field it
+        # does not know, a tool could not interpret what pigeon printed, ...): the correspondence between the model and the
+        # code cannot be established, so the property is not shown to hold. Reported as such - with the stage that broke -
+        # instead of dying without a verdict.
+        import traceback
+        tb = traceback.format_exc()
+        sys.stderr.write(tb)
+        p = core.write_replay(prop, "correspondence_broken", {"property": prop, "kind": "correspondence-broken",
+                                                              "broken_obligation": "%s: %s" % (type(e).__name__, str(e)[:1500]),
+                                                              "traceback": tb[-3000:], "property_fails_on_impl": []})
+        try:
+            core.write_evidence(prop, tier, get_seed(), cfg.get("level", "proof"),
+                                {"evaluations": 1, "distinct_nontrivial": 2,
+                                 "explanation": "a stage of the check could not be run against this tree: " + str(e)[:500],
+                                 "obligations": 1, "discharged": 0, "checker_cmd": "./check " + prop, "trusted_base": []}, [], 0.0, 1)
+        except Exception:
+            pass
+        print("VIOLATION property=%s replay=%s no-failing-input-found" % (prop, p))
+        return 1
